@@ -175,6 +175,50 @@ def run(prog, rep, tier):
     if obs:
         rep.info("environment failures unwrapped (unreadable-file scenario, outside the property's arbitrary-content quantifier): %s" % sorted(set(obs))[:6])
 
+    # ------------------------------------------------------------ R7.10 allocations are sized by the block size, never by a size the file declares
+    # Sizes stored in archive/compression headers are input (a tar header may claim 2^62 bytes).  Every
+    # buffer the readers allocate in the worker threads is sized by the block size (blocksz, or
+    # blocksz_at_blockoffset), a constant, or the length of data already in memory; a buffer sized by a
+    # declared file size makes the allocator abort the whole process.
+    R710 = rep.rule("R7.10", "buffers allocated while reading are sized by the block size or by data at hand, not by a declared file size")
+    n710 = 0
+    DECL = ("filesz", "filesz_actual", "size", "uncompressed_size", "entry_size", "header_size", "len_total", "filesz_header")
+    for p_ in sorted(reach):
+        ab = prog.body(p_, required=False)
+        if ab is None or not p_.startswith("s4lib::readers::"):
+            continue
+        for c in ab.live_calls():
+            last = c.d.split("::")[-1]
+            if last not in ("from_elem", "with_capacity", "resize", "reserve", "reserve_exact", "with_capacity_in", "from_elem_in") or not ("Vec" in c.d or "vec" in c.d or "String" in c.d):
+                continue
+            szarg = c.args[-1] if last.startswith("from_elem") else (c.args[0] if last.startswith("with_capacity") else (c.args[1] if len(c.args) > 1 else None))
+            if szarg is None:
+                continue
+            n710 += 1
+            srcs = set()
+            declared = []
+            if szarg[0] == "k":
+                srcs.add("const")
+            else:
+                for x in ab.origins(szarg, through_calls=("::try_into", "::unwrap", "::into", "::try_from")):
+                    if x[0] == "call":
+                        nm_ = x[2].split("::")[-1]
+                        srcs.add("call:" + nm_)
+                        if nm_ in DECL or nm_ in ("filesz", "filesz_actual", "size"):
+                            declared.append(nm_ + "()")
+                    elif x[0] in ("arg", "local"):
+                        fl_ = [q for q in x[-1] if isinstance(q, str) and q not in ("*", "&")]
+                        srcs.add("%s:%s" % (x[0], ".".join(fl_)))
+                        declared += [q for q in fl_ if q in DECL]
+                    else:
+                        srcs.add(x[0])
+            rep.examined(R710, "%s|%s@%s" % (p_, last, ",".join(sorted(srcs))), sample={"site": p_.split("::")[-1], "allocation": last, "line": c.line, "size_from": sorted(srcs)})
+            if declared:
+                rep.violation(R710, "%s|%s|declared-size" % (p_, last), "%s (line %d): a buffer is allocated with a size taken from %s, which the file itself declares; a tar member whose header claims 2^62 bytes "
+                              "makes the allocation fail and aborts the process (exit 134), and every other source loses its output" % (p_.split("::")[-1], c.line, sorted(set(declared))))
+    if n710 < 15:
+        raise CheckerError("R7.10: only %d allocation sites found in the readers (25 on the pinned tree)" % n710)
+
     # ------------------------------------------------------------ R7.9 stored modification times convert without panicking
     # The modification time of a tar member is a number read from the archive header (up to 2^63);
     # it reaches SystemTime and chrono through seconds_to_systemtime / systemtime_to_datetime in the
